@@ -49,8 +49,16 @@ LIMITS = ["float rounding outside the model (tolerance 1e-9 on the float64 path)
           "constraint (dimension / trust / pair / group) and must belong to the sub-case the finding describes; the "
           "assert_constraints clause carries the feature indices parsed from the library's message",
           "Keras initializer objects / ids other than the library's own are outside the property",
-          "KFL function-level monotonicity/bounds are proved for arbitrary per-dimension interpolated values "
-          "(convex combinations of adjacent kernel entries); the interpolation itself is C07's model"]
+          "KFL function level: C10_kfl_fresh_function_{monotone,bounded,default_range} state that the layer's function "
+          "(C07's model MK.unit_out: interpolation, product, scale, mean, bias) on the fresh kernel / scale / bias "
+          "is monotone in every monotone input and within the bounds, for every uniform draw in the init range "
+          "(0 <= init_min, and init_max <= 1 when a bound is set); MK.unit_out is tied to the layer's call by the "
+          "C07 check (H_C07), the initialiser models by this check (CKflCol / CKflScaleBias; "
+          "C10_kfl_init_models_agree links the two scale/bias models); on the implementation the function is probed "
+          "on the fresh layer (clauses 'kfl init: output decreases ...' / 'output outside the bounds')",
+          "tfl.layers.Linear has NO library initializer (kernel_initializer defaults to the Keras 'random_uniform', "
+          "bias to 'zeros'): there is no initializer model and no C10 theorem for it; a fresh constrained Linear "
+          "layer is not claimed to satisfy its constraints (the first projection is property C06's business)"]
 
 PRED_TOL = 1e-9
 F32_TOL = 1e-5
